@@ -67,11 +67,12 @@ ASSUMPTIONS = [
     'simde_kxor_mask*, simd_op_t<simde_avx512_t,double>::fmadd uses the float intrinsic): not provided, not run',
 ]
 PARTIAL = [
-    'reductions over an axis other than the last: simdReduceVertical_eq_loop/_eq_fold are proved on the 2-d forms (R,C)/(Ro,C) that '
-    'reduction_nd_reshape gives the n-d operand and output (hypotheses hRC/hOut name them), for all Ro, A, C, lanes. Not proved: that '
-    'reducing an n-d row-major array over a non-last `axis` is this problem, i.e. simdReduceAxis = scalarReduceAxis on the n-d NDA '
-    '(full statement kept as a comment in Props/C12.lean); proved for the last axis (simdReduceAxis_lastAxis_eq_scalar); the '
-    'non-last-axis identification is checked by the NumPy oracle on every run',
+    'reductions over an axis other than the last: simdReduceAxis_nonLastAxis_eq_fold proves, for every n-d shape pre++[A]++post, that '
+    'eval_reduction leaves no buffer and that row rho of its result is the column-wise left fold (from the identity row) of buffer rows '
+    'rho*A .. rho*A+A-1 (via simdReduceVertical_eq_loop/_eq_fold on the 2-d forms of reduction_nd_reshape). Not proved: that this '
+    'row-wise fold is the cell-wise reference scalarReduceAxis on the n-d NDA (mixed-radix decomposition of ndindex; full statement '
+    'kept as a comment in Props/C12.lean); proved in full for the last axis (simdReduceAxis_lastAxis_eq_scalar); the non-last-axis '
+    'identification is checked by the NumPy oracle on every run',
     'outer: outer_covers_once (every output cell written exactly once, any operand rank) is proved; that the lhs/rhs offsets of each step '
     'are the outer-product operands, and the evaluator-level simdOuter = scalarOuter, are not (correspondence + NumPy only)',
     'matmul: matmul_inner_covers_once (the inner steps of every output element read its lhs row / rhs column exactly once, any K) is '
@@ -81,7 +82,7 @@ PARTIAL = [
     'known findings of the unchanged tree (counterexample theorems in Props/C12.lean where the model covers them)',
 ]
 MANIFEST = dict(
-    text='Proof: 27 Lean theorems over all element counts / row lengths and all lane counts > 0: closed form of the packed loop, every '
+    text='Proof: 28 Lean theorems over all element counts / row lengths and all lane counts > 0: closed form of the packed loop, every '
          'packed access inside its buffer, packed chunks + tail partition [0,n); SIMD unary / same-shape binary = scalar evaluator; '
          '2-d broadcasting binary: every output cell written exactly once, operand offsets = NumPy broadcasting, offsets in bounds, '
          'evaluator = NumPy broadcasting; full reduction = left fold over a commutative monoid when the literal 0 is its identity; '
